@@ -11,6 +11,7 @@
   by the `rdgen.*` validation (generated definitions vs the implementation).  No Mathlib import.
 -/
 import DateutilVerif.Model.RelativeDelta
+import DateutilVerif.Model.WdPy
 
 namespace RDPy
 open RDM
@@ -160,5 +161,45 @@ structure Pow2 where
 
 /-- `1 / float(other)`: exact for a power of two -/
 def recipPow2 (p : Pow2) : Dy := { m := if p.neg then -1 else 1, k := p.k }
+
+/-! ### `repr` support: `repr(int)`, `repr(None)`, `"{:+g}".format(int)` -/
+
+/-- `repr(v)` of an int -/
+def reprInt (v : Int) : String := if v < 0 then "-" ++ toString v.natAbs else toString v.natAbs
+
+/-- `repr(v)` of an Optional int -/
+def reprOptInt (v : Option Int) : String :=
+  match v with
+  | some x => reprInt x
+  | none => "None"
+
+/-- `repr(w)` of a weekday object or None, given the weekday class's `__repr__` -/
+def reprOptWd (f : WdPy.Wd → Py.R String) (w : Option (Int × Option Int)) : Py.R String :=
+  match w with
+  | some x => f x
+  | none => .ok "None"
+
+/-- drop trailing '0' characters -/
+def stripZeros (l : List Char) : List Char := (l.reverse.dropWhile (· == '0')).reverse
+
+/-- `"{:+g}".format(v)` for an int `v` with |v| < 2^53 (the conversion to float is then exact): general format with 6
+    significant digits — the plain digits below 10^6, otherwise the mantissa rounded half-to-even to 6 digits with trailing
+    zeros removed and a two-digit (at least) exponent; the sign always shown -/
+def fmtPlusG (v : Int) : String :=
+  let sign := if v < 0 then "-" else "+"
+  let n := v.natAbs
+  if n < 1000000 then sign ++ toString n
+  else
+    let e := (toString n).length - 1
+    let p := 10 ^ (e - 5)
+    let q := n / p
+    let r := n % p
+    let q := if 2 * r > p ∨ (2 * r = p ∧ q % 2 = 1) then q + 1 else q
+    let (q, e) := if q = 1000000 then (100000, e + 1) else (q, e)
+    let ds := (toString q).toList
+    let frac := stripZeros (ds.drop 1)
+    let mant := String.ofList (ds.take 1) ++ (if frac.isEmpty then "" else "." ++ String.ofList frac)
+    let es := toString e
+    sign ++ mant ++ "e+" ++ (if es.length < 2 then "0" ++ es else es)
 
 end RDPy
